@@ -812,6 +812,13 @@ class MacroProgram(ElementProgram):
                 name.lower() in self.implicit_i18n_attributes
             )
 
+            # An attribute value written without quotes is quoted when
+            # a computed value goes into it.
+            if not quote and eq and (
+                expr is not None or (text is not None and '${' in text)
+            ):
+                quote = '"'
+
             char_escape = ('&', '<', '>', quote)
             msgid = I18N_ATTRIBUTES.get(name, missing)
 
